@@ -505,6 +505,31 @@ func checkSatelliteAttachment(c *Ctx, rule, fam string, sat *ssa.Function) {
 			}
 		}
 	}
+	// a decoded value is what was read: nothing stores a constant into one of the field arrays between the
+	// bit reads and the construction of the cells (a "normalisation" of special values changes the result)
+	{
+		over := false
+		eachInstr(sat, func(ins ssa.Instruction) {
+			st, ok := ins.(*ssa.Store)
+			if !ok {
+				return
+			}
+			ia, ok := st.Addr.(*ssa.IndexAddr)
+			if !ok {
+				return
+			}
+			if _, isSl := ia.X.Type().Underlying().(*types.Slice); !isSl {
+				return
+			}
+			if _, isK := st.Val.(*ssa.Const); isK {
+				over = true
+				c.Fail(rule, fam+":satellite:decoded-values-kept", st.Pos(), "refuted", "a constant is stored over an element of a field array after it was read: the cell no longer carries the encoded value")
+			}
+		})
+		if !over {
+			c.OK(rule, fam+":satellite:decoded-values-kept", sat.Pos(), "no constant is stored into a field array of the satellite reader")
+		}
+	}
 	c.Check(app, rule, fam+":satellite:appended", ctor.Pos(), "each constructed cell is appended to the result in order", "constructed satellite cells are not appended to the result")
 	// the list is complete: a successful return is reached only over the exit edge of the loop
 	// that builds the cells
@@ -583,6 +608,13 @@ func checkSignalAttachment(c *Ctx, rule, fam string, A *Aff, hl *headerLemma, si
 	nArr := 0
 	for j, a := range ctor.Call.Args {
 		fld := ctorFieldOfParam(ctorFn, j)
+		if fld == "Wavelength" {
+			// the carrier wavelength of a cell is what the frequency table gives for (constellation, signal id)
+			wcall, isCall := a.(*ssa.Call)
+			okW := isCall && wcall.Call.StaticCallee() != nil && wcall.Call.StaticCallee().Name() == "GetSignalWavelength" && c.P.InModule(wcall.Call.StaticCallee())
+			c.Check(okW, rule, fam+":signal:wavelength=table", ctor.Pos(), "the cell's wavelength is the result of GetSignalWavelength, unmodified",
+				"the wavelength given to the cell is not the frequency table's value for its constellation and signal id")
+		}
 		switch x := a.(type) {
 		case *ssa.IndexAddr:
 			// &satCells[i]
